@@ -1050,7 +1050,7 @@ def rt_cases(prop):
                 sp['session'] = RT.gen_session(r2, sp)
                 yield {'kind': 'rt', 'prop': prop, 'spec': sp}
                 continue
-            if i % 4 == 3 and prop not in ('C06', 'C10', 'C13') and (prop != 'C14' or flat):
+            if i % 4 == 3 and prop not in ('C06', 'C10', 'C13') and (prop != 'C14' or flat) and 'presession' not in sp:
                 # the same tree run a second time ("in any run of any scheduler"); the second run is judged.
                 # Not for C13 (co_shutdown is sent once in a scheduler's life: "a later explicit shutdown() sends
                 # nothing more"); for C14 only without nesting (the jobs of a nested scheduler keep the state of
